@@ -108,7 +108,10 @@ class IVFCLevel4Reader(RawIOBase):
         if size == 0:
             return b''
 
-        with self._lock:
+        # the tree's lock is held over the whole call: a write through another reader of the same tree puts all its blocks
+        # under one hold, so a read that took the lock block by block could return half of it
+        # noinspection PyProtectedMember
+        with self._lock, self._tree._rlock:
             starting_block, ending_block = get_block_range(self._seek, size, self._lv4.block_size)
 
             blocks = []
